@@ -404,7 +404,7 @@ class AudioThread(threading.Thread):
 
     # Open a new audio output stream
     self.stream = device_manager._pa.open(format=_STRUCT2PYAUDIO[dfmt],
-                                          channels=channels,
+                                          channels=self.channels,
                                           rate=rate,
                                           frames_per_buffer=self.chunk_size,
                                           output=True,
